@@ -12,7 +12,14 @@
    the freshly analysed one (C01_partial).  The remaining hypothesis - the incremental parser agrees
    with a parse from scratch - is FALSE of the code (C01_tree_refuted): known finding C01-incparse.
    The check therefore relies on the correspondence for the tree layer: Model/ParserInc.v
-   transcribes the pinned algorithm and predicts every divergence of the real parser::update. *)
+   transcribes the pinned algorithm and predicts every divergence of the real parser::update.
+
+   Positive part (end of this file, Proofs/IncPositive*.v): the tree layer HOLDS for BLANK EDITS - changes
+   for which lexer::update reports an empty TokenChange (white space typed or removed in a gap between
+   tokens) - of a text without parse errors and without a comment directly before a comma
+   (C01_holds_for_blank_edits, for whole histories of such edits; C01_holds_for_empty_token_change on
+   token vectors, for any old tree that is the scratch tree up to build/semantic messages).  Each
+   of the three hypotheses is necessary: C01_blank_needs_*. *)
 From Spl Require Import Model.Update Proofs.UpdateProofs.
 
 Definition C01_full_statement : Prop :=
@@ -195,3 +202,84 @@ Definition ex_toks : list token := Eval vm_compute in match lex w_nil with Some 
 
 Example C01_inc_none_example : exists p, parse ex_toks = Done p /\ parse_via_inc ex_toks = Done p.
 Proof. vm_compute. eexists. split; reflexivity. Qed.
+
+(* ------------------------------------------------------------------------------------------ *)
+(* The tree layer holds for blank edits (Proofs/IncPositive*.v).
+   `clean_textb t`: the scratch tree of t carries no parse error and no comment token stands directly
+   before a comma; `blank_histb t h`: every change of h addresses the current text and lexer::update
+   answers it with an EMPTY TokenChange (no token deleted, none inserted).  Both are boolean functions
+   of the old text and the changes. *)
+From Coq Require Import String.
+From Spl Require Import Model.Errors Proofs.IncPositiveList Proofs.IncPositiveProg Proofs.IncPositive Judge.Dump Judge.DumpAst.
+
+(* parser::update under an empty TokenChange at any position w: old may be the scratch tree itself or
+   any tree that differs from it by build/semantic messages only (remove_messages = strip_program) *)
+Theorem C01_holds_for_empty_token_change : forall old toks w p,
+  NCC toks -> parse toks = Done p -> tree_errors p = [] -> strip_program old = p ->
+  parse_update old toks w w 0 = Done p.
+Proof. exact inc_empty_change. Qed.
+Print Assumptions C01_holds_for_empty_token_change.
+
+(* after ANY history of blank edits of a clean text the incrementally updated document - text,
+   tokens and TREE - is the freshly analysed one: C01_full_statement restricted to this class *)
+Theorem C01_holds_for_blank_edits : forall t h,
+  clean_textb t = true -> blank_histb t h = true ->
+  exists doc0 doc',
+    pnew t = Done doc0 /\ valid_hist t h /\ phist doc0 h = Done doc' /\ pnew (final_text t h) = Done doc'.
+Proof. exact blank_edits_fresh. Qed.
+Print Assumptions C01_holds_for_blank_edits.
+
+(* one step, with the invariant it preserves *)
+Theorem C01_blank_step : forall doc c,
+  CleanDoc doc -> blank_change doc c ->
+  exists doc', pstep doc (c_a c) (c_d c) (c_b c) (c_ins c) = Done doc' /\
+               pnew (c_a c ++ c_ins c ++ c_b c) = Done doc' /\ CleanDoc doc' /\ p_tree doc' = p_tree doc.
+Proof. exact blank_step. Qed.
+Print Assumptions C01_blank_step.
+
+Definition edit (t : string) (at_ del : nat) (ins : string) : text * tchange :=
+  let txt := str t in
+  (txt, {| c_a := firstn at_ txt; c_d := firstn del (skipn at_ txt); c_b := skipn (at_ + del) txt; c_ins := str ins |}).
+
+(* the updated tree of one step differs from the scratch tree of the new tokens *)
+Definition diverges (tc : text * tchange) : bool :=
+  let '(t, c) := tc in
+  match pnew t with
+  | Done d0 =>
+      match pstep d0 (c_a c) (c_d c) (c_b c) (c_ins c) with
+      | Done d1 => negb (nlist_eqb (enc_outcome (parse (p_toks d1))) (enc_outcome (Done (p_tree d1))))
+      | _ => true
+      end
+  | _ => false
+  end.
+
+(* non-vacuity: `proc m(){if(c) g(x,2);}`, two blanks typed after `)`, then a line break appended *)
+Example C01_blank_edits_example :
+  let t := str "proc m(){if(c) g(x,2);}" in
+  let c1 := snd (edit "proc m(){if(c) g(x,2);}" 14 0 "  ") in
+  let c2 := snd (edit "proc m(){if(c)   g(x,2);}" 25 0 (String (Ascii.ascii_of_nat 10) EmptyString)) in
+  clean_textb t = true /\ blank_histb t [c1; c2] = true /\ diverges (t, c1) = false.
+Proof. vm_compute. repeat split. Qed.
+
+(* the hypotheses are necessary.  (1) a parse error in the old tree: `proc m(){a  :=1+;}`, a blank typed
+   before `:=` - the change is empty, but the reused expression `1+` has lost its message *)
+Example C01_blank_needs_no_parse_error :
+  let tc := edit "proc m(){a  :=1+;}" 11 0 " " in
+  blank_changeb (fst tc) (snd tc) = true /\ clean_textb (fst tc) = false /\ diverges tc = true.
+Proof. vm_compute. repeat split. Qed.
+
+(* (2) a comment before a comma of a parameter list: a blank typed before `{` - empty change, no parse
+   error, but the re-wrapped old parameters are misaligned *)
+Example C01_blank_needs_no_comment_before_comma :
+  let tc := edit ("proc f(a:int//" ++ String (Ascii.ascii_of_nat 10) ",b:int,d:int) {}") 28 0 " " in
+  blank_changeb (fst tc) (snd tc) = true /\ clean_textb (fst tc) = false /\ diverges tc = true.
+Proof. vm_compute. repeat split. Qed.
+
+(* (3) an empty TokenChange: `proc m(){if(c) g(x,2);}` is clean, a blank typed directly after `x` changes
+   no token kind, but `x` is re-lexed (window 11..12, one token) and `expect` retries the statement
+   from the position of the Affected argument; the same happens when x is renamed to y in place *)
+Example C01_blank_needs_empty_change :
+  let tc := edit "proc m(){if(c) g(x,2);}" 18 0 " " in
+  let tr := edit "proc m(){if(c) g(x,2);}" 17 1 "y" in
+  clean_textb (fst tc) = true /\ blank_changeb (fst tc) (snd tc) = false /\ diverges tc = true /\ diverges tr = true.
+Proof. vm_compute. repeat split. Qed.
